@@ -223,6 +223,9 @@ func (c *context) run() {
 		}
 
 		if c.ResponseWriter().Written() {
+			// Stay at the handler that has just been executed, so that another call of
+			// Next advances to the one right after it instead of skipping it.
+			c.index--
 			return
 		}
 	}
